@@ -498,6 +498,57 @@ def sum_product(c, op, k, diag):
     c.prove("sum_product.value", at(res, b, i, j, diag) == want)
 
 
+@case("C05", clause="sum_product", name="kernel_operators", replay=lambda *a: replay_kernel(*a),
+      expand=lambda ix: [(op, ks, ko) for op in ("add", "mul") for ks in ("leaf", "Additive", "Product") for ko in ("leaf", "Additive", "Product")],
+      functions=[f"{KM}.kernel.Kernel.__add__", f"{KM}.kernel.Kernel.__mul__", f"{KM}.kernel.AdditiveKernel.__init__", f"{KM}.kernel.ProductKernel.__init__",
+                 f"{KM}.kernel.AdditiveKernel.forward", f"{KM}.kernel.ProductKernel.forward"])
+def kernel_operators(c, op, kind_self, kind_other):
+    """k1 + k2 / k1 * k2 (with the flattening of nested sums / products the operators perform) evaluate to the sum / product of
+    the operands' values, whatever the operands are: a leaf kernel, a sum of two kernels or a product of two kernels.
+    Callee contract of Kernel.__call__ on an operand (C06): the dense value of operand.forward on the same inputs."""
+    it, ctx = c.it, c.ctx
+    bs = []
+    x1, x2, n1, n2, d = inputs(c, bs, False)
+    composites = []
+
+    def operand(kind, tag):
+        if kind == "leaf":
+            p = BaseKernelStub(c, f"{tag}", bs, n1, n2)
+            return p.o, (lambda i, j: p.K.at([i, j]))
+        p, q = BaseKernelStub(c, f"{tag}p", bs, n1, n2), BaseKernelStub(c, f"{tag}q", bs, n1, n2)
+        o = kernel_obj(c, f"{KM}.kernel.{kind}Kernel", bs, {})
+        o.fields["kernels"] = VList([p.o, q.o])
+        composites.append(o)
+        if kind == "Additive":
+            return o, (lambda i, j: p.K.at([i, j]) + q.K.at([i, j]))
+        return o, (lambda i, j: p.K.at([i, j]) * q.K.at([i, j]))
+
+    a, va = operand(kind_self, "s")
+    b_, vb = operand(kind_other, "o")
+
+    def call_hook(it_, ctx_, fi, args, kwargs):
+        if isinstance(fi, tuple) or not args or fi.name != "__call__" or not any(args[0] is o for o in composites):
+            return NotImplemented
+        return it_.call(ctx_, c.getattr(args[0], "forward"), list(args[1:]), dict(kwargs))
+
+    it.call_hooks.append(call_hook)
+    res_k = it.call(ctx, c.func(f"{KM}.kernel.Kernel.__{op}__"), [a, b_], {})
+    want_cls = "AdditiveKernel" if op == "add" else "ProductKernel"
+    c.prove("operators.result_class", z3.BoolVal(isinstance(res_k, VObj) and res_k.cls.name == want_cls))
+    if not isinstance(res_k, VObj):
+        return
+    composites.append(res_k)
+    res = run_forward(c, res_k, x1, x2, False)
+    from engine.dom_elem import VTensor as _VT
+    if not isinstance(res, _VT):
+        c.fail("operators.result_is_a_matrix", f"got {res.describe()}")
+        return
+    check_shape(c, res, bs, n1, n2, False, "operators")
+    b, i, j = entry_idx(c, bs, n1, n2, False)
+    want = (va(i, j) + vb(i, j)) if op == "add" else (va(i, j) * vb(i, j))
+    c.prove("operators.value", at(res, b, i, j, False) == want)
+
+
 # ------------------------------------------------------------------------------ piecewise polynomial ------
 @case("C05", clause="piecewise_polynomial", expand=lambda ix: [(q,) for q in (0, 1, 2, 3)], replay=lambda *a: replay_pp(*a),
       functions=[f"{KM}.piecewise_polynomial_kernel._get_cov", f"{KM}.piecewise_polynomial_kernel.fmax"])
